@@ -14,9 +14,12 @@ def stable_names():
 
 def run():
     names = stable_names()
-    rc, out, dt = sh(["cmake", "--build", os.path.join(REPO, "_build"), "-j%d" % NCPU], timeout=7200)
+    # ninja -k 0: some targets outside the 68 stable tests (libsupport/test/logging.cpp with the
+    # installed fmt) never compiled in this sandbox; the verdict is the ctest result below
+    rc, out, dt = sh(["cmake", "--build", os.path.join(REPO, "_build"), "-j%d" % NCPU, "--", "-k", "0"], timeout=7200)
     if rc != 0:
-        log(out[-3000:]); log("baseline build failed"); return 1
+        log("note: 'cmake --build' reported failing targets (pre-existing, not among the stable tests):")
+        log("\n".join(l for l in out.splitlines() if l.startswith("FAILED"))[:1500])
     rx = "^(" + "|".join(re.escape(n) for n in names) + ")$"
     rc, out, dt = sh(["ctest", "--test-dir", os.path.join(REPO, "_build"), "-j8", "--timeout", "900", "-R", rx],
                      timeout=7200)
